@@ -157,6 +157,28 @@ def run(ctx):
             record(t, meta, {"src": "chain", "version": 2, "mode": st.get("mode"), "link": link, "changed": what})
             n_links += 1
     res.coverage["chained_requests"] = n_links
+    # a long run on one fresh manager: hundreds of distinct transactions, earlier ones asked for again (same
+    # transaction, same or another input) at the distances bounded tables usually have
+    from .. import longrun
+    lbench = signx.Bench(2)
+    seen = {}
+    n_long = 0
+    for step in longrun.revisit_schedule(ctx.pick(140, 300), every=ctx.pick(6, 3)):
+        if step[0] == "new":
+            req, st = reqs.make(ctx.rng.choice(["sign_legacy", "sign_segwit"]), ctx.rng)
+            seen[step[1]] = (req, st)
+            how = "new"
+        else:
+            req, st = copy.deepcopy(seen[step[1]])
+            if ctx.rng.random() < 0.5:
+                st["input"] = ctx.rng.randrange(max(1, len(st["tx"]["ins"]))) if isinstance(st.get("tx"), dict) and "ins" in st["tx"] else st["input"]
+                req["message"]["input"] = st["input"]
+            how = "again@%d" % step[2]
+        pol = FaithfulSignPolicy(size=lambda part, remaining: min(255, max(1, remaining)))
+        t, meta = lbench.run(req, st, pol, ctx.rng, coop=True)
+        record(t, meta, {"src": "long-run", "version": 2, "mode": st.get("mode"), "step": how})
+        n_long += 1
+    res.coverage["long_run_requests"] = n_long
     res.coverage["model_drift"] = drift
     verdicts, stats = tlc.validate("TraceSignExchange", "Trace_SignExchange.cfg", traces, shards=14)
     res.checker_cmds.append("tlc -workers 1 -config Trace_SignExchange.cfg TraceSignExchange (x%d shards)" % stats["jvms"])
